@@ -157,6 +157,69 @@ fn threads_child(a: &[String]) -> ! {
     std::process::exit(0);
 }
 
+fn mapped_ranges() -> Vec<(u64, u64)> {
+    let txt = std::fs::read_to_string("/proc/self/maps").unwrap_or_default();
+    txt.lines()
+        .filter_map(|l| {
+            let r = l.split_whitespace().next()?;
+            let (a, b) = r.split_once('-')?;
+            Some((u64::from_str_radix(a, 16).ok()?, u64::from_str_radix(b, 16).ok()?))
+        })
+        .collect()
+}
+
+/// child mode: `replay --unmapcheck <path>`: open and drop a real ShmReader on the file; report address ranges that were mapped
+/// before and are not mapped afterwards (the reader may only unmap what it mapped itself)
+fn unmapcheck_child(a: &[String]) -> ! {
+    let path = a.get(0).cloned().unwrap_or_default();
+    let cpath = std::ffi::CString::new(path).unwrap();
+    // settle the allocator first so that it does not move the heap in between
+    let warm: Vec<u8> = Vec::with_capacity(1 << 16);
+    drop(warm);
+    let before = mapped_ranges();
+    let r = clock_bound_shm::ShmReader::new(&cpath);
+    let opened = r.is_ok();
+    drop(r);
+    let after = mapped_ranges();
+    let mut lost: u64 = 0;
+    let mut first = String::new();
+    for (s, e) in before {
+        let mut p = s;
+        while p < e {
+            if !after.iter().any(|(x, y)| *x <= p && p < *y) {
+                if lost == 0 {
+                    first = format!("{:x}", p);
+                }
+                lost += 4096;
+            }
+            p += 4096;
+        }
+    }
+    println!("opened={} lost_bytes={} first_lost={}", opened, lost, first);
+    std::process::exit(0);
+}
+
+/// unmapcheck <hex file bytes>
+fn cmd_unmapcheck(a: &[&str]) -> String {
+    let hex = a.get(0).copied().unwrap_or("");
+    let bytes: Vec<u8> = (0..hex.len() / 2).map(|i| u8::from_str_radix(&hex[2 * i..2 * i + 2], 16).unwrap_or(0)).collect();
+    let path = seg::tmp_path("um");
+    if std::fs::write(&path, &bytes).is_err() {
+        return "io".into();
+    }
+    let exe = match std::env::current_exe() {
+        Ok(e) => e,
+        Err(_) => return "noexe".into(),
+    };
+    let out = std::process::Command::new(exe).arg("--unmapcheck").arg(&path).stdin(std::process::Stdio::null()).output();
+    let _ = std::fs::remove_file(&path);
+    match out {
+        Ok(o) if o.status.success() => format!("ok {}", String::from_utf8_lossy(&o.stdout).trim()),
+        Ok(o) => format!("ok crashed status={:?}", o.status.code()),
+        Err(_) => "nospawn".into(),
+    }
+}
+
 /// threads <site> <nth> <mode> [<watchdog ms>]: run the child above; report when (whether) thread_manager::run returned
 fn cmd_threads(a: &[&str]) -> String {
     let wd: u64 = a.get(3).and_then(|x| x.parse().ok()).unwrap_or(10_000);
@@ -204,6 +267,9 @@ fn main() {
     if argv.get(1).map(|s| s.as_str()) == Some("--threads") {
         threads_child(&argv[2..]);
     }
+    if argv.get(1).map(|s| s.as_str()) == Some("--unmapcheck") {
+        unmapcheck_child(&argv[2..]);
+    }
     let stdin = std::io::stdin();
     let stdout = std::io::stdout();
     let mut out = stdout.lock();
@@ -236,9 +302,12 @@ fn main() {
             "abi2" => abi::cmd_abi2(&rest),
             "recreate" => seg::cmd_recreate(&rest),
             "snapshot_stall" => seg::cmd_snapshot_stall(&rest),
+            "seq_publish" => seg::cmd_seq_publish(&rest),
+            "snapshot_stall_odd" => seg::cmd_snapshot_stall_odd(&rest),
             "snapshot_busy" => seg::cmd_snapshot_busy(&rest),
             "e2e" => daemon::cmd_e2e(&rest),
             "threads" => cmd_threads(&rest),
+            "unmapcheck" => cmd_unmapcheck(&rest),
             "ping" => "pong".to_string(),
             _ => format!("unknown-command {}", cmd),
         };
